@@ -96,6 +96,21 @@ def _guards(init_node):
     out = []
     for n in ast.walk(init_node):
         if isinstance(n, ast.If) and (body_always_raises(n.body) or (n.orelse and body_always_raises(n.orelse))):
+            # locals that only name a sub-condition (`is_integer = isinstance(..)`) stand for that condition
+            from ..cfg import deref_at as _da
+
+            for x in list(ast.walk(n.test)):
+                if isinstance(x, ast.Name) and isinstance(x.ctx, ast.Load):
+                    d = _da(init_node, x)
+                    if d is not x and not isinstance(d, ast.Name):
+                        for par in ast.walk(n.test):
+                            for fld, val in ast.iter_fields(par):
+                                if val is x:
+                                    setattr(par, fld, d)
+                                elif isinstance(val, list) and any(v is x for v in val):
+                                    val[[i for i, v in enumerate(val) if v is x][0]] = d
+                        if n.test is x:
+                            n.test = d
             names = {x.id for x in ast.walk(n.test) if isinstance(x, ast.Name)}
             for a in _anc(n):
                 if isinstance(a, ast.For) and isinstance(a.target, ast.Name) and a.target.id in names and isinstance(a.iter, (ast.Tuple, ast.List)):
